@@ -25,6 +25,8 @@ def generic(*names):
 
 
 def install(world):
+    for k in ("once", "empty", "repeat_n", "zip", "from_fn", "successors"):
+        M.setdefault(k, M["std::iter::" + k])
     world.models.update(M)
     world.generic_models.update(G)
     world.to_iter = to_iter
